@@ -119,6 +119,16 @@ impl LiteralsSection {
         let block_type = br.get_bits(2)? as u8;
         self.ls_type = Self::section_type(block_type)?;
         let size_format = br.get_bits(2)? as u8;
+        #[cfg(feature = "verif_hooks")]
+        {
+            use crate::verif::{hit, Feat};
+            hit(match size_format {
+                0 => Feat::lit_size_format_0,
+                1 => Feat::lit_size_format_1,
+                2 => Feat::lit_size_format_2,
+                _ => Feat::lit_size_format_3,
+            });
+        }
 
         let byte_needed = self.header_bytes_needed(raw[0])?;
         if raw.len() < byte_needed as usize {
